@@ -49,6 +49,9 @@ def op_hll_fullscale(job):
     limit = job['limit']
     pattern = job['pattern']
     mk = (lambda i: f'{(i * 2654435761) & 0xffffffff:08x}') if job.get('values') == 'hex' else (lambda i: f'value-{i}-é')
+    if job.get('values') == 'mixed':
+        # values of several types: small ints, the strings that print like them, and other strings - all distinct values
+        mk = lambda i: (i if i < 30000 else (str(i - 30000) if i < 60000 else f'value-{i}-é'))
     h = HyperLogLogWCache(0.02)
     ev = []
     n = 0
